@@ -49,6 +49,9 @@ type finding struct {
 	Status   string `json:"status"` // open | fixed
 	Commit   string `json:"commit,omitempty"`
 	What     string `json:"what"`
+	// a finding whose discriminating feature of the history is carried as a signature suffix by several clauses
+	SigSuffix string   `json:"sig_suffix,omitempty"`
+	Clauses   []string `json:"clauses,omitempty"`
 }
 
 type tierCfg struct {
@@ -378,8 +381,15 @@ func main() {
 	isKnown := func(clause, sig string) *finding {
 		for i := range known.Findings {
 			f := &known.Findings[i]
-			if f.Property == prop && f.Status == "open" && f.Clause == clause && f.Sig == sig {
+			if f.Property == prop && f.Status == "open" && f.Clause == clause && f.Sig == sig && f.SigSuffix == "" {
 				return f
+			}
+			if f.Property == prop && f.Status == "open" && f.SigSuffix != "" && strings.HasSuffix(sig, f.SigSuffix) {
+				for _, c := range f.Clauses {
+					if c == clause {
+						return f
+					}
+				}
 			}
 		}
 		return nil
